@@ -283,12 +283,24 @@ var mirror = map[string]string{"GT": "LT", "GE": "LE", "LT": "GT", "LE": "GE", "
 
 // comparison constructs found in a case body
 func (c *Ctx) comparisonsIn(fi *FuncInfo, body []ast.Stmt) []string {
-	info := fi.Pkg.TypesInfo
-	var found []string
 	recv := ""
 	if fi.Decl.Recv != nil && len(fi.Decl.Recv.List) > 0 && len(fi.Decl.Recv.List[0].Names) > 0 {
 		recv = fi.Decl.Recv.List[0].Names[0].Name
 	}
+	var nodes []ast.Node
+	for _, st := range body {
+		nodes = append(nodes, st)
+	}
+	return c.comparisonsInNodes(fi.Pkg, recv, func(pos token.Pos) *ast.FieldList {
+		params, _ := innermostFunc(fi.Decl, pos)
+		return params
+	}, nodes)
+}
+
+// comparisonsInNodes: the comparison constructs in a piece of syntax; paramsAt gives the parameters of the innermost function around a position.
+func (c *Ctx) comparisonsInNodes(pkg *packagesPackage, recv string, paramsAt func(token.Pos) *ast.FieldList, body []ast.Node) []string {
+	info := pkg.TypesInfo
+	var found []string
 	mentionsParam := func(e ast.Expr, params *ast.FieldList) bool {
 		hit := false
 		ast.Inspect(e, func(n ast.Node) bool {
@@ -329,7 +341,7 @@ func (c *Ctx) comparisonsIn(fi *FuncInfo, body []ast.Stmt) []string {
 					return
 				}
 			}
-			params, _ := innermostFunc(fi.Decl, x.Pos())
+			params := paramsAt(x.Pos())
 			l, r := mentionsParam(x.X, params), mentionsParam(x.Y, params)
 			if r && !l {
 				op = mirror[op]
@@ -357,7 +369,7 @@ func (c *Ctx) comparisonsIn(fi *FuncInfo, body []ast.Stmt) []string {
 					}
 				}
 			case *ast.Ident:
-				if obj := info.Uses[x]; obj != nil && objPkgPath(obj) == pkgSQL && fi.Pkg.PkgPath == pkgSQL {
+				if obj := info.Uses[x]; obj != nil && objPkgPath(obj) == pkgSQL && pkg.PkgPath == pkgSQL {
 					if k, ok := sqlCtor[obj.Name()]; ok {
 						if _, isFn := obj.(*types.Func); isFn {
 							found = append(found, k)
@@ -429,8 +441,151 @@ var ruleD3 = &Rule{
 				}
 			}
 		}
+		// the same obligation for dispatch tables: a map literal keyed by operator strings
+		for _, t := range c.opTables(transpilerScopes) {
+			for _, e := range t.entries {
+				exp, ok := opTable[e.key]
+				if !ok {
+					continue
+				}
+				found := c.comparisonsInNodes(t.pkg, "", func(pos token.Pos) *ast.FieldList {
+					var params *ast.FieldList
+					ast.Inspect(e.val, func(n ast.Node) bool {
+						if fl, ok := n.(*ast.FuncLit); ok && fl.Pos() <= pos && pos < fl.End() {
+							params = fl.Type.Params
+						}
+						return true
+					})
+					return params
+				}, []ast.Node{e.val})
+				family := map[string]bool{"GT": true, "GE": true, "LT": true, "LE": true}
+				if exp == "EQ" || exp == "NE" {
+					family = map[string]bool{"EQ": true, "NE": true}
+				}
+				var inFam []string
+				for _, f := range found {
+					if family[f] {
+						inFam = append(inFam, f)
+					}
+				}
+				if len(inFam) == 0 {
+					continue
+				}
+				has := func(k string) bool {
+					for _, f := range inFam {
+						if f == k {
+							return true
+						}
+					}
+					return false
+				}
+				key := fmt.Sprintf("%s.%s table entry %q", rel(t.pkg.PkgPath), t.name, e.key)
+				okEq := (exp == "NE" && has("NE")) || (exp == "EQ" && has("EQ") && !has("NE"))
+				if (len(inFam) == 1 && inFam[0] == exp) || okEq {
+					obls = append(obls, Obl{Key: key, Pos: c.pos(e.val.Pos()), Status: OK, Msg: "builds " + exp})
+				} else {
+					obls = append(obls, Obl{Key: key, Pos: c.pos(e.val.Pos()), Status: Violation,
+						Msg: fmt.Sprintf("table entry for operator %q builds %v, expected exactly %s", e.key, inFam, exp)})
+				}
+			}
+		}
 		return obls
 	},
+}
+
+type opTableEntry struct {
+	key string
+	val ast.Expr
+}
+
+type opTableLit struct {
+	pkg     *packagesPackage
+	name    string
+	lit     *ast.CompositeLit
+	entries []opTableEntry
+}
+
+// opTables: map literals with constant string keys (dispatch tables that replace a switch over an operator / function name).
+func (c *Ctx) opTables(scopes []string) []*opTableLit {
+	key := "optables:" + strings.Join(scopes, ",")
+	if v, ok := c.memo[key]; ok {
+		return v.([]*opTableLit)
+	}
+	var out []*opTableLit
+	for _, p := range c.PkgsUnder(scopes...) {
+		for _, f := range p.Syntax {
+			if strings.HasSuffix(c.Fset.Position(f.Pos()).Filename, "_test.go") {
+				continue
+			}
+			scan := func(name string, root ast.Node) {
+				n := 0
+				ast.Inspect(root, func(nd ast.Node) bool {
+					lit, ok := nd.(*ast.CompositeLit)
+					if !ok {
+						return true
+					}
+					tv, ok := p.TypesInfo.Types[lit]
+					if !ok {
+						return true
+					}
+					mt, ok := tv.Type.Underlying().(*types.Map)
+					if !ok {
+						return true
+					}
+					if b, ok := mt.Key().Underlying().(*types.Basic); !ok || b.Info()&types.IsString == 0 {
+						return true
+					}
+					t := &opTableLit{pkg: p, name: name, lit: lit}
+					if n > 0 {
+						t.name = fmt.Sprintf("%s#%d", name, n)
+					}
+					n++
+					for _, el := range lit.Elts {
+						kv, ok := el.(*ast.KeyValueExpr)
+						if !ok {
+							continue
+						}
+						if k, ok := constString(p.TypesInfo, kv.Key); ok {
+							t.entries = append(t.entries, opTableEntry{k, kv.Value})
+						}
+					}
+					sort.Slice(t.entries, func(i, j int) bool { return t.entries[i].key < t.entries[j].key })
+					if len(t.entries) > 0 {
+						out = append(out, t)
+					}
+					return true
+				})
+			}
+			for _, d := range f.Decls {
+				switch x := d.(type) {
+				case *ast.GenDecl:
+					if x.Tok != token.VAR {
+						continue
+					}
+					for _, sp := range x.Specs {
+						vs := sp.(*ast.ValueSpec)
+						for i, v := range vs.Values {
+							nm := "_"
+							if i < len(vs.Names) {
+								nm = vs.Names[i].Name
+							}
+							scan(nm, v)
+						}
+					}
+				case *ast.FuncDecl:
+					if x.Body != nil {
+						nm := x.Name.Name
+						if r := recvTypeName(x); r != "" {
+							nm = r + "." + nm
+						}
+						scan(nm+" table", x.Body)
+					}
+				}
+			}
+		}
+	}
+	c.memo[key] = out
+	return out
 }
 
 // ---------------------------------------------------------------------------------
